@@ -8,7 +8,7 @@ CONSTANTS
   WIds = {3, 4}
   LMode = "mixed"
   ECodes = {0, 100}
-  TCodes = {111,132}
+  TCodes = {132}
   QuadIds = {4}
   ClampE = 15
   SlackE = 14
